@@ -1,0 +1,157 @@
+//go:build verif
+
+package index
+
+import (
+	"fmt"
+	"os"
+	"strings"
+)
+
+// Verification hooks for property C11 (corrupt shard files never crash the searcher): the reader primitives of
+// read.go / section.go / bits.go / btree.go / hititer.go, callable on arbitrary bytes. Not part of the normal build.
+// None of these recovers from panics: the caller classifies them.
+
+func VerifC11FromSizedDeltas(data []byte) []uint32   { return fromSizedDeltas(data, nil) }
+func VerifC11FromSizedDeltas16(data []byte) []uint16 { return fromSizedDeltas16(data, nil) }
+func VerifC11FromDeltas(data []byte) []uint32        { return fromDeltas(data, nil) }
+func VerifC11UnmarshalDocSections(data []byte) []DocumentSection {
+	return unmarshalDocSections(data, nil)
+}
+
+// VerifC11PostingIter runs newCompressedPostingIterator(data) and then next(limit) for every limit, returning first()
+// after construction and after every call.
+func VerifC11PostingIter(data []byte, limits []uint32) []uint32 {
+	it := newCompressedPostingIterator(data, 0)
+	out := []uint32{it.first()}
+	for _, l := range limits {
+		it.next(l)
+		out = append(out, it.first())
+	}
+	return out
+}
+
+// VerifC11File opens path with the real NewIndexFile (mmap).
+func VerifC11File(path string) (IndexFile, error) {
+	f, err := os.Open(path)
+	if err != nil {
+		return nil, err
+	}
+	return NewIndexFile(f)
+}
+
+// VerifC11Read is IndexFile.Read; it returns a copy of the bytes.
+func VerifC11Read(f IndexFile, off, sz uint32) ([]byte, error) {
+	b, err := f.Read(off, sz)
+	if err != nil {
+		return nil, err
+	}
+	return append([]byte(nil), b...), nil
+}
+
+// VerifC11Reader runs a sequence of reader operations at offset off: "u32", "u64", "varint", "str".
+// It returns one rendered result per operation ("err" for an error) and the final offset.
+func VerifC11Reader(f IndexFile, off uint32, ops []string) ([]string, uint32) {
+	r := &reader{r: f, off: off}
+	var out []string
+	for _, op := range ops {
+		switch op {
+		case "u32":
+			v, err := r.U32()
+			out = append(out, renderC11(v, err))
+		case "u64":
+			v, err := r.U64()
+			out = append(out, renderC11(v, err))
+		case "varint":
+			v, err := r.Varint()
+			out = append(out, renderC11(v, err))
+		case "str":
+			v, err := r.Str()
+			if err != nil {
+				out = append(out, "err")
+			} else {
+				out = append(out, fmt.Sprintf("%x", v))
+			}
+		default:
+			panic("op " + op)
+		}
+	}
+	return out, r.off
+}
+
+func renderC11(v any, err error) string {
+	if err != nil {
+		return "err"
+	}
+	return fmt.Sprint(v)
+}
+
+// VerifC11ReadHeader is reader.readHeader: the TOC section, the section count, the reader offset afterwards.
+func VerifC11ReadHeader(f IndexFile) (off, sz, sectionCount, pos uint32, err error) {
+	r := &reader{r: f}
+	sec, n, err := r.readHeader()
+	return sec.off, sec.sz, n, r.off, err
+}
+
+// VerifC11SectionU32 / U64 are readSectionU32 / readSectionU64.
+func VerifC11SectionU32(f IndexFile, off, sz uint32) ([]uint32, error) {
+	return readSectionU32(f, simpleSection{off, sz})
+}
+
+func VerifC11SectionU64(f IndexFile, off, sz uint32) ([]uint64, error) {
+	return readSectionU64(f, simpleSection{off, sz})
+}
+
+// VerifC11CompoundRead positions a reader at pos, runs compoundSection.read and then relativeIndex.
+func VerifC11CompoundRead(f IndexFile, pos uint32) (dataOff, dataSz uint32, offsets, rel []uint32, err error) {
+	r := &reader{r: f, off: pos}
+	var s compoundSection
+	if err := s.read(r); err != nil {
+		return 0, 0, nil, nil, err
+	}
+	return s.data.off, s.data.sz, s.offsets, s.relativeIndex(), nil
+}
+
+// VerifC11Btree is indexData.newBtreeIndex over the ngram section [off, off+sz): it returns the number of buckets.
+func VerifC11Btree(f IndexFile, off, sz uint32) (buckets int, err error) {
+	d := &indexData{file: f}
+	bi, err := d.newBtreeIndex(simpleSection{off, sz}, compoundSection{})
+	if err != nil {
+		return 0, err
+	}
+	return bi.bt.lastBucketIndex + 1, nil
+}
+
+// VerifC11TOC is reader.readTOC: the sections it filled in, as "name=off+sz" (simple) or
+// "name=off+sz/ioff+isz#n" (compound, n offsets), in the order of sectionsTaggedList, skipping the unused ones.
+func VerifC11TOC(f IndexFile) (string, error) {
+	r := &reader{r: f}
+	var toc indexTOC
+	if err := r.readTOC(&toc); err != nil {
+		return "", err
+	}
+	var parts []string
+	for _, ent := range toc.sectionsTaggedList() {
+		switch s := ent.sec.(type) {
+		case *simpleSection:
+			if ent.tag == "nameBloom" || ent.tag == "contentBloom" || ent.tag == "ranks" {
+				continue
+			}
+			parts = append(parts, fmt.Sprintf("%s=%d+%d", ent.tag, s.off, s.sz))
+		case *compoundSection:
+			parts = append(parts, fmt.Sprintf("%s=%d+%d/%d+%d#%d", ent.tag, s.data.off, s.data.sz, s.index.off, s.index.sz, len(s.offsets)))
+		case *lazyCompoundSection:
+			parts = append(parts, fmt.Sprintf("%s=%d+%d/%d+%d#%d", ent.tag, s.data.off, s.data.sz, s.index.off, s.index.sz, len(s.offsets)))
+		}
+	}
+	return strings.Join(parts, ","), nil
+}
+
+// VerifC11Load is loadIndexData (readTOC + readIndexData), i.e. what NewSearcher does.
+func VerifC11Load(f IndexFile) (numDocs int, err error) {
+	d, err := loadIndexData(f)
+	if err != nil {
+		return 0, err
+	}
+	return len(d.fileBranchMasks), nil
+}
